@@ -414,6 +414,19 @@ func floatSpec[T float32 | float64](c *ctx, pkg, encName, decName string, encF f
 			f, _ := strconv.ParseFloat(fmt.Sprintf("1e%d", e), 64)
 			put(f)
 		}
+		// every power of two with its two neighbours: the limits of the integer types (2^31, 2^32, 2^53, 2^63, 2^64)
+		// are where an integer fast path of a float formatter or parser changes behaviour
+		for e := -1074; e <= 1023; e++ {
+			f := math.Ldexp(1, e)
+			put(f)
+			put(math.Nextafter(f, math.Inf(1)))
+			put(math.Nextafter(f, 0))
+			if e >= -149 && e <= 127 {
+				f32 := float32(f)
+				put(float64(math.Nextafter32(f32, float32(math.Inf(1)))))
+				put(float64(math.Nextafter32(f32, 0)))
+			}
+		}
 		put(math.MaxFloat64)
 		put(math.SmallestNonzeroFloat64)
 		put(math.MaxFloat32)
